@@ -58,6 +58,7 @@ type gen struct {
 	p        *Prog
 	depth    int
 	inHelper bool
+	inRange  int
 }
 
 // Generate draws a program.
@@ -265,7 +266,23 @@ func (g *gen) ws(label string) string {
 	if !g.o.Weird {
 		return " "
 	}
+	if g.n(0, 15, "fakews") == 0 {
+		// bytes that are NOT white space for an HTML tokenizer but are easily mistaken for it: the template is
+		// then a different (usually rejected) structure, and accepting it as if it were white space is a defect
+		g.flag("fake-whitespace")
+		return g.pick("fake", "\v", "\x00", "\x1c", "\x1f", "\u00a0", "\u2028", "\u3000", "\u0085", "\x08")
+	}
 	return g.pick(label, " ", " ", " ", "  ", "\t", "\n", "\f", "\r", "\r\n", " \n ")
+}
+
+// realWS: HTML white space only. Used after the names of special elements: a byte that is not white space there
+// makes the browser's tag name longer than the engine's (known deviation in the harmless direction: the engine
+// treats the element as special and only rewrites more), which is not what this search is about.
+func (g *gen) realWS() string {
+	if !g.o.Weird {
+		return " "
+	}
+	return g.pick("realws", " ", " ", "\t", "\n", "\f", "\r", "\r\n")
 }
 
 func (g *gen) endTag(name string) string {
@@ -360,6 +377,16 @@ func (g *gen) control(b *strings.Builder, body func(*strings.Builder)) {
 		l := g.p.NList
 		g.p.NList++
 		fmt.Fprintf(b, "{{range $.L%d}}", l)
+		g.inRange++
+		defer func() { g.inRange-- }()
+		if g.n(0, 7, "loopexit") == 0 {
+			// break / continue leave or restart the loop body in whatever HTML context they sit (rejected by the
+			// engine today; naive support would be unsound)
+			c := g.p.NCond
+			g.p.NCond++
+			fmt.Fprintf(b, "{{if $.C%d}}{{%s}}{{end}}", c, g.pick("exit", "break", "continue"))
+			g.flag("break-continue")
+		}
 		body(b)
 		if g.n(0, 3, "relse") == 0 {
 			b.WriteString("{{else}}")
@@ -417,10 +444,10 @@ func (g *gen) special(b *strings.Builder) {
 	name := g.pick("special", "title", "textarea", "textarea", "script", "style")
 	b.WriteString("<" + g.spell(name))
 	if name == "textarea" && g.coin("taattr") {
-		b.WriteString(g.ws("ws") + "rows=\"2\"")
+		b.WriteString(g.realWS() + "rows=\"2\"")
 	}
 	if name == "script" && g.n(0, 3, "stype") == 0 {
-		b.WriteString(g.ws("ws") + "type=\"" + g.pick("scripttype", "text/javascript", "module", "application/json", "text/plain") + "\"")
+		b.WriteString(g.realWS() + "type=\"" + g.pick("scripttype", "text/javascript", "module", "application/json", "text/plain") + "\"")
 	}
 	b.WriteString(">")
 	n := g.n(0, 3, "sitems")
@@ -480,6 +507,12 @@ func (g *gen) attrs(b *strings.Builder, elem string) {
 			g.flag("conditional-attribute")
 		} else {
 			one(b)
+		}
+		if g.inRange > 0 && g.n(0, 5, "tagexit") == 0 {
+			c := g.p.NCond
+			g.p.NCond++
+			fmt.Fprintf(b, "{{if $.C%d}}{{%s}}{{end}}", c, g.pick("exit", "break", "continue"))
+			g.flag("break-continue-in-tag")
 		}
 	}
 	if g.o.Weird && g.n(0, 7, "trailws") == 0 {
